@@ -483,7 +483,7 @@ func genC13(c *Ctx) {
 	oddKeyIDs := []string{"ed25519:", "rsa:1", "ed25519:k 1", "ed25519:a,b", "ed25519:a=b", "ed25519:é", "ed25519:q\"x", "ed25519:b\\s", "ed25519:\x7f", "ED25519:k", " ed25519:k ", "ed25519:\tk"}
 	bodies := []string{`{}`, `{"a":1}`, `{"b": [1, 2, {"c": null}], "a": "x y"}`, `[]`, `[1,"two",false]`, `"str"`, `12`, `null`, `true`,
 		`{"k":"<&>"}`, `{"k":"éé😀"}`, `{"n":1.5,"m":1e3,"z":-0}`, `{"pdus":[{"type":"m.room.message","content":{"body":"hi"}}],"edus":[]}`,
-		` { "a" : 1 } `, `{"a":"A\n\t\\\""}`, `{"":""}`, `{"a":{"a":{"a":{}}}}`, `{"a":1,"b":2}`, `{"q\"k":1,"b\\s":2,"t\tb":[{"\u00e9\n":null}]}`}
+		` { "a" : 1 } `, `{"a":"A\n\t\\\""}`, `{"":""}`, `{"a":{"a":{"a":{}}}}`, `{"a":1,"b":2}`, `{"a":1,"a":2,"b":{"c":1,"c":0}}`, `{"q\"k":1,"b\\s":2,"t\tb":[{"\u00e9\n":null}]}`}
 
 	// ---- 1. the sending side: every combination class, compared field by field ----
 	sendCase := func(method, o0, dest, uri string, hasC bool, content string, steps []c13Step, desc string) {
@@ -695,6 +695,10 @@ func genC13(c *Ctx) {
 			runV(t2, "request line: method and URI not UTF-8")
 		}
 	}
+
+	// ---- 2d. body tamperings around ill-formed or ambiguous JSON texts ----
+	c13SurrogateBodies(c)
+	c13DuplicateMemberBodies(c, runV)
 
 	// ---- 3. every single-field tampering of an honest transmission ----
 	nt := c.Scale(40, 400)
@@ -1231,5 +1235,87 @@ func c13Crossover(c *Ctx, runV func(c13Scn, string) []byte) {
 			}
 			runV(sc, "crossover: "+v.d)
 		}
+	}
+}
+
+// Finding F68: compactUnicodeEscape deletes an unpaired surrogate escape, so a body with such an
+// escape inserted has the canonical form (and the signature) of the body without it, while every
+// JSON decoder reads U+FFFD there.  The model of canonical JSON (parse + canonical print) decodes
+// the escape as encoding/json does, i.e. it describes the value, not this deletion; the family is
+// therefore judged on the specification side only ("body differs => refused").
+func c13SurrogateBodies(c *Ctx) {
+	signedBodies := []string{`{"reason":"","user_id":"@alice:origin.example"}`, `{"reason":"ab","user_id":"@alice:origin.example"}`, `{"k":["x",{"y":"z"}]}`}
+	escapes := []string{`\ud800`, `\udc00`, `\udbff`, `\udfff`, `\uD83D`, `\uDE00`}
+	for _, b := range signedBodies {
+		st := c13Step{"origin.example", "ed25519:k1", "K1"}
+		s := c13DoSend("PUT", "", "dest.example", "/_matrix/federation/v1/send/1", true, B(b), []c13Step{st})
+		if s.stage != "" || !s.httpOK {
+			continue
+		}
+		base, ok := c13Base(s, st, "dest.example")
+		if !ok {
+			continue
+		}
+		base.flags = "-"
+		body := string(s.hb)
+		// every position inside a string: after an opening quote or between two letters
+		inStr := false
+		for i := 0; i < len(body); i++ {
+			if body[i] == '"' {
+				inStr = !inStr
+				if !inStr {
+					continue
+				}
+			} else if !inStr {
+				continue
+			}
+			for _, e := range escapes {
+				t := base.clone()
+				t.body = []byte(body[:i+1] + e + body[i+1:])
+				c.Run("C13.verify", t.args(), "", "C13.prop.verify", "body: unpaired surrogate escape inserted")
+				c.Count("verify/body-unpaired-surrogate")
+			}
+		}
+	}
+}
+
+// Finding F75 (repaired): duplicate members must keep their order in the canonical form.  Bodies
+// with two members of the same name among many others (the unstable sort only showed with more
+// than 12 members), transmitted in other member orders: accepted exactly when the duplicates
+// keep their relative order.
+func c13DuplicateMemberBodies(c *Ctx, runV func(c13Scn, string) []byte) {
+	st := c13Step{"origin.example", "ed25519:k1", "K1"}
+	for _, n := range []int{2, 11, 13, 20, 33} {
+		members := []string{`"dup":1`, `"dup":2`}
+		for i := 0; i < n; i++ {
+			members = append(members, fmt.Sprintf(`"k%02d":0`, i))
+		}
+		signed := "{" + strings.Join(members, ",") + "}"
+		s := c13DoSend("PUT", "", "dest.example", "/a", true, B(signed), []c13Step{st})
+		if s.stage != "" || !s.httpOK {
+			continue
+		}
+		base, ok := c13Base(s, st, "dest.example")
+		if !ok {
+			continue
+		}
+		runV(base, "duplicate members: as signed")
+		base.flags = "-"
+		if n == 13 { // the order reported for F75
+			t := base.clone()
+			t.body = []byte(`{"k11":0,"k10":0,"dup":2,"k03":0,"k02":0,"k07":0,"k12":0,"k01":0,"k00":0,"k06":0,"k04":0,"k05":0,"k08":0,"dup":1,"k09":0}`)
+			runV(t, "duplicate members: the F75 order")
+		}
+		for k, m := 0, c.Scale(40, 400); k < m; k++ {
+			p := append([]string{}, members...)
+			c.Rng.Shuffle(len(p), func(a, b int) { p[a], p[b] = p[b], p[a] })
+			t := base.clone()
+			t.body = []byte("{" + strings.Join(p, ",") + "}")
+			runV(t, "duplicate members: shuffled")
+		}
+		// nested, and more than two equal names
+		t := base.clone()
+		t.body = []byte(strings.Replace(string(s.hb), `"dup":1,"dup":2`, `"dup":2,"dup":1`, 1))
+		runV(t, "duplicate members: swapped in place")
 	}
 }
